@@ -325,6 +325,15 @@ for _nb, _tier, _to in ((4, "quick", 600), (5, "thorough", 3000)):
         assumptions=["reference = definition of the bzip2 block-sorting transform (last column of the sorted cyclic rotations, primary index = row of the block itself)"],
         outside=["blocks above %d bytes; the derandomisation table itself (rand_table stepping starts at byte 617)" % _nb])
 
+# ------------------------------------------------------------------------------- encoder MTF / zero-run stage
+for _nb, _tier, _to in ((4, "quick", 600), (6, "thorough", 3000)):
+    add("mtf_n%d" % _nb, "h_mtf.c", "h_mtf", {"C01": _tier, "C02": _tier}, defines=["-DNB=%d" % _nb],
+        cbmc=["--unwind", str(2 * _nb + 4), "--unwindset", "h_mtf.0:257,make_map_e.0:257,do_mtf.0:6,do_mtf.1:256,do_mtf.3:4"], backend="kissat", timeout=_to, mem_gb=8,
+        functions=["src/encode.c:do_mtf", "src/encode.c:make_map_e"], witnesses=["zero_runs_shorten_the_sequence", "three_values_full_length"],
+        bounds="every block-sorted column of 1..%d bytes over up to three byte values (7, 8, 200; which are in use is symbolic)" % _nb,
+        assumptions=["byte values concrete (the code only compares and maps them through the symbol map)"],
+        outside=["alphabets above three byte values (deeper move-to-front positions), columns above %d bytes" % _nb])
+
 # ===== keep this section LAST: it derives obligations from everything registered above =====
 # ------------------------------------------------------------------------------- C08: the same harnesses with CBMC's UB checks on
 import copy as _copy
